@@ -109,10 +109,9 @@ impl From<SelectorParseError<'_>> for SelectorError {
                     Self::UnexpectedTokenInAttribute
                 }
                 SelectorParseErrorKind::ClassNeedsIdent(_) => Self::InvalidClassName,
-                SelectorParseErrorKind::InvalidState => {
-                    debug_assert!(false, "invalid state");
-                    Self::UnsupportedSyntax
-                }
+                // NOTE: reachable from user input, e.g. a pseudo-element inside a
+                // negation (`:not(::before)`), so it must not be asserted against.
+                SelectorParseErrorKind::InvalidState => Self::UnsupportedSyntax,
             },
         }
     }
